@@ -10,9 +10,14 @@ package main
 import (
 	"bytes"
 	"encoding/binary"
+	"encoding/hex"
 	"fmt"
 	"io"
 	"math/bits"
+	"os"
+	"os/exec"
+	"runtime"
+	"syscall"
 	"strconv"
 	"strings"
 
@@ -1358,7 +1363,89 @@ func (g *gen) recoverHistory(kind int) {
 	s.done()
 }
 
+// ---------------------------------------------------------------- hostile declared palette lengths
+
+// allocChild: this binary re-executed as `-c12child <kind> <n> <hex>`: ReadFrom of the bytes into a fresh
+// container under a 1 GiB address-space limit. Exit status 0 = returned (error or not), 3 = recovered
+// panic; a fatal "out of memory" of the runtime kills the process with another status.
+func allocChildMain() {
+	kind, _ := strconv.Atoi(os.Args[2])
+	n, _ := strconv.Atoi(os.Args[3])
+	in, _ := hex.DecodeString(os.Args[4])
+	lim := syscall.Rlimit{Cur: 1 << 30, Max: 1 << 30}
+	_ = syscall.Setrlimit(syscall.RLIMIT_AS, &lim)
+	defer func() {
+		if r := recover(); r != nil {
+			os.Exit(3)
+		}
+	}()
+	if kind == kStates {
+		_, _ = level.NewStatesPaletteContainer(n, 0).ReadFrom(bytes.NewReader(in))
+	} else {
+		_, _ = level.NewBiomesPaletteContainer(n, 0).ReadFrom(bytes.NewReader(in))
+	}
+	os.Exit(0)
+}
+
+func runAllocChild(kind, n int, in []byte) (ok bool, how string) {
+	cmd := exec.Command(os.Args[0], "-c12child", strconv.Itoa(kind), strconv.Itoa(n), hex.EncodeToString(in))
+	out, err := cmd.CombinedOutput()
+	if err == nil {
+		return true, ""
+	}
+	msg := string(out)
+	if i := strings.Index(msg, "\n"); i > 0 {
+		msg = msg[:i]
+	}
+	return false, fmt.Sprintf("%v: %s", err, msg)
+}
+
+// a bits byte of every indirect class, a declared palette length far above what the width can index
+// (2^bits+1, 2^20, 2^31-1) and 0..16 bytes behind it, read into a used container: the decoder must
+// fail without allocating for the declared length (predicate C12.alloc.palette); the model gives the
+// outcome of the read.
+func (g *gen) allocHistory(kind int, bb int, declared int, behind int) {
+	n := 4096
+	if kind == kBiomes {
+		n = 64
+	}
+	s := newScript(g.o, "alloc."+kindName[kind], kind, n)
+	R := regSize[kind]
+	s.initNew(0, g.r.Intn(R))
+	s.initNone(1)
+	for t := 0; t < 3; t++ {
+		s.set(0, g.pos(n), g.r.Intn(R))
+	}
+	in := append([]byte{byte(bb)}, refVarInt(int32(declared))...)
+	in = append(in, g.r.Bytes(behind)...)
+	safe := true
+	if declared >= 1<<24 {
+		// gigabytes if the length were allocated: first in a child process with an address-space limit
+		if ok, how := runAllocChild(kind, n, in); !ok {
+			safe = false
+			g.o.Fail("C12.alloc.palette", "%s ReadFrom(%s) in a child process under a 1 GiB limit: %s", kindName[kind], hx.Hex(in), how)
+		}
+	}
+	if safe {
+		var m0, m1 runtime.MemStats
+		runtime.ReadMemStats(&m0)
+		s.feed(0, in, "")
+		runtime.ReadMemStats(&m1)
+		if d := m1.TotalAlloc - m0.TotalAlloc; d > 1<<20 {
+			g.o.Fail("C12.alloc.palette", "%s ReadFrom(%s) allocated %d bytes for a declared palette length of %d with %d bytes behind it", kindName[kind], hx.Hex(in), d, declared, behind)
+		}
+		s.set(0, g.pos(n), g.r.Intn(R))
+		s.xfer(1, 0, nil)
+	}
+	s.nontrv = true
+	s.done()
+}
+
 func main() {
+	if len(os.Args) > 1 && os.Args[1] == "-c12child" {
+		allocChildMain()
+		return
+	}
 	o := hx.Open()
 	defer o.Close()
 	gbits = [2]int{block.BitsPerBlock, biome.BitsPerBiome}
@@ -1421,6 +1508,23 @@ func main() {
 	}
 	for i := 0; i < o.N(200, 10); i++ {
 		g.feedHistory(kBiomes)
+	}
+	// hostile declared palette lengths: every indirect bits class of both configurations
+	for kind, classes := range [2][]int{{1, 2, 3, 4, 5, 6, 7, 8}, {1, 2, 3}} {
+		for _, bb := range classes {
+			w := bb
+			if kind == kStates && bb < 4 {
+				w = 4
+			}
+			for _, declared := range []int{1<<w + 1, 1 << 20, 1<<31 - 1} {
+				for _, behind := range []int{0, 1, 5, 16} {
+					if declared == 1<<31-1 && behind != 0 && !o.Thorough() && bb%3 != 0 {
+						continue // the child process costs ~10 ms: a third of the classes in the quick tier
+					}
+					g.allocHistory(kind, bb, declared, behind)
+				}
+			}
+		}
 	}
 	for i := 0; i < o.N(15, 10); i++ {
 		g.recoverHistory(kStates)
